@@ -270,3 +270,31 @@ datakey_run_id = REG.add(Contract(
     ghost={"hashed": z3.BoolVal(False)},
     calls={"strax.deterministic_hash": _dk_hash},
 ))
+
+
+# --------------------------------------------------------------------------------------
+# Context._set_plugin_config: defaults are resolved into a COPY of the context's config (C02)
+# --------------------------------------------------------------------------------------
+def _validate_hook(eng, args, kw, st, fr, k, node):
+    """opt.validate(config, run_id=..., run_defaults=...): writes the option's (per-run) default into the dict it is given"""
+    selfv = eng.to_v(st.env["self"])
+    cfg = z3.Function("attr_config", V, V)(selfv)
+    given = eng.to_v(args[1]) if len(args) > 1 else eng.to_v(args[0])
+    eng.oblige("config", "option defaults (also per-run defaults) are resolved into a copy of the context's configuration, never into "
+                         "the context's own dict - what one run or one plugin resolves must not leak into the next", st,
+               given == z3.Function("method:copy", V, V)(cfg), node)
+    fr.on_raise(Exc("InvalidConfiguration", Opq(eng.fresh("invalid", "V"))), st)
+    return k(PNONE, st)
+
+
+set_plugin_config = REG.add(Contract(
+    "strax/context.py", "Context._set_plugin_config",
+    params=dict(self="V", p="V", run_id="V", tolerant="bool"),
+    requires=lambda S, a: [("p is a plugin instance", S.is_instance(a.p, "strax.Plugin"))],
+    ensures=lambda S, a, r: [], raises={"InvalidConfiguration": lambda S, a: S.Not(a.tolerant), "AssertionError": lambda S, a: S.true,
+                                        "ValueError": lambda S, a: S.true},
+    calls={"self._process_superrun_id": Abstract(pure=True, may_raise=["ValueError"]), ".validate": _validate_hook,
+           "self.run_defaults": Abstract(pure=True)},
+    store_hooks={"attr:config": lambda eng, st, obj, v, node: st, "p.config": lambda eng, st, key, v, node: st},
+    loops={1: Loop(lambda S, a: []), 2: Loop(lambda S, a: [])},
+))
